@@ -21,6 +21,10 @@ func ResetWatchCache() {
 '''},
         'trimpath': False,
     },
+    'gen': {
+        'pkg': 'zzverif/worlds/gen',
+        'rewrite': [('cmd/templ/generatecmd', 'sync,os'), ('cmd/templ/generatecmd/watcher', 'sync,os'), ('parser/v2', 'os')],
+    },
     'lsp': {
         'pkg': 'zzverif/worlds/lsp',
         'rewrite': [('lsp/jsonrpc2', 'sync'), ('cmd/templ/lspcmd/proxy', 'sync'), ('lsp/protocol', 'sync')],
@@ -141,6 +145,28 @@ PROPS = {
         'assumptions': ['tasks interleave only at seams (writer, flush, expression, start of render); code between two seams of one task is atomic in stage main',
                         'race detection inside a burst is by happens-before; a replay of a race report is same seed and burst structure, not a byte-identical trace',
                         'dev-mode TTL uses the real clock in this world; the text files are not edited here, so it cannot change bytes (C16 owns the TTL logic)'],
+    },
+    'C15': {
+        'world': 'gen',
+        'level': 'exploration',
+        'builds': {'default': {}, 'race': {'race': True}},
+        'stages': [
+            {'name': 'main', 'build': 'default'},
+            {'name': 'race', 'build': 'race', 'params': {'burst': 1}, 'env': {'GORACE': 'halt_on_error=1'}, 'no_guard': True},
+        ],
+        'tiers': {
+            'quick': {'runs': 1200, 'stage_runs': {'race': 300}, 'params': {'max_files': 24, 'max_steps': 20000}, 'per_run_timeout': 20.0, 'chunk': 25},
+            'thorough': {'runs': 40000, 'stage_runs': {'race': 8000}, 'params': {'max_files': 60, 'max_steps': 60000}, 'per_run_timeout': 60.0, 'chunk': 50, 'shrink_budget_s': 400},
+        },
+        'rule': 'one run = a tape-drawn directory tree in a real temporary directory (depth <= 4; skipped and non-skipped directory names; 1-N templates from the repository\'s own '
+                'generator test inputs; failing files: truncated templates, non-Go expressions; orphaned, stale and up-to-date _templ.go files; unrelated files) x worker count 1-16 x '
+                'keep-orphaned / lazy / include-version x injected disk faults (EIO on one template read, ENOSPC or short write on one output) x a schedule: every os call of the command '
+                'parks (named by path) and the tape picks who proceeds (stage main) or all proceed at once in a -race build (stage race); then Run is executed a second time. '
+                'distinct = event-log hash; non-trivial = the schedule switched between tasks (main) or ran bursts (race)',
+        'real': ['generatecmd.NewGenerate(...).Run (walker, semaphore-bounded workers, error and post-generation goroutines)', 'FSEventHandler', 'watcher.WalkFiles', 'internal/skipdir', 'parser', 'generator', 'go/format'],
+        'stubbed': ['os.* of the command (simos: park + fault layer over a real temporary directory)', 'sync.Mutex (channel mutex)', 'fsnotify and watch mode are not run'],
+        'assumptions': ['faults are not injected on Stat (a failed stat is read as "not modified") nor on Remove of an orphan', 'with Lazy, pre-existing newer _templ.go files are only ever correct ones',
+                        'the sandbox file system is trusted for content, not for timing (mtimes are set explicitly)', 'tasks the simulator cannot tell apart (same path, same call) are released together'],
     },
     'C17': {
         'world': 'lsp',
